@@ -309,6 +309,15 @@ Fixpoint tspec (rate burst : Z) (s : sst) (ops : list xtop) : option (bool * sst
       else Some (false, s)
   end.
 
+(* at every quiescent point each limiter is alive or has a monitor running that will bring it back
+   (never "on the rescue path and nobody pinging") *)
+Definition snap_of (o : xtop) : snap :=
+  match o with
+  | XTTick _ sn => sn | XTAllow _ _ _ _ _ sn => sn | XTConc _ _ _ _ sn => sn | XTFault _ _ _ sn => sn | XTReplace _ _ sn => sn
+  end.
+Definition snap_inv (sn : snap) : bool :=
+  negb (s_known sn) || ((s_alive0 sn || s_mon0 sn) && (s_alive1 sn || s_mon1 sn)).
+
 Definition token_hyp (rate burst t0 : Z) : bool :=
   (1 <=? rate) && (1 <=? burst) && (rate <=? 2 * burst) && (0 <=? t0).
 
@@ -332,7 +341,7 @@ Definition spec_ok (c : case) : bool :=
   | CPeriod lims t0 ops => pspec lims t0 [] ops
   | CToken rate burst t0 panicked ops =>
       if token_hyp rate burst t0 then
-        negb panicked &&
+        negb panicked && forallb (fun o => snap_inv (snap_of o)) ops &&
         match tspec rate burst (mkS t0 (binit burst 1 (t0 / 1000)) true true FRedis (binit burst 1000 t0)
                                     FRedis (binit burst 1000 t0) []) ops with
         | None => true
